@@ -1610,7 +1610,7 @@ def flatten_stream(ctx, cirq, n):
         try:
             cf, em = cirq.flatten(cs)
             params = em.transform_params(cirq.ParamResolver(dict(case['entries'])))
-            rf = cirq.resolve_parameters(cf, params)
+            rf = eval_constants(cirq, cirq.resolve_parameters(cf, params))
             bad = None
             if cirq.is_parameterized(rf):
                 bad = f'flattened circuit resolved with transform_params is still parameterized by {sorted(cirq.parameter_names(rf))}'
@@ -1633,7 +1633,7 @@ def flatten_stream(ctx, cirq, n):
                         twin = twin_circuit(cirq, [], case['specs'], q, dict_items(pr))
                     except ValueError:
                         continue                 # ordinary algebra gives no real parameter at this point
-                    a = cirq.resolve_parameters(cf2, pr2)
+                    a = eval_constants(cirq, cirq.resolve_parameters(cf2, pr2))
                     if cirq.is_parameterized(a):
                         bad = f'flatten_with_sweep: resolved flattened circuit is still parameterized by {sorted(cirq.parameter_names(a))}'
                     elif not ops_match(cirq, a, twin, q):
@@ -1652,6 +1652,14 @@ def flatten_stream(ctx, cirq, n):
             ctx.disagree('differential:flatten', bad, f'flatten:{blame}', f'cirq.flatten of\n{safe_str(cs)}\n{bad}', rep)
 
 
+def eval_constants(cirq, circuit):
+    """flatten leaves numbers alone, sympy constants included, and resolving with an empty assignment is the identity; a
+    symbol-free sympy parameter is evaluated by any non-empty resolution, so do one (it changes no value)."""
+    if cirq.is_parameterized(circuit) and not cirq.parameter_names(circuit):
+        return cirq.resolve_parameters(circuit, {'c10_unused_symbol': 0.0})
+    return circuit
+
+
 def flatten_ok_without_subs(cirq, case):
     """True when the same check passes once the sub-circuit operations are dropped (so the sub-circuits are to blame)."""
     specs = [s for s in case['specs'] if not isinstance(s['wrap'], tuple)]
@@ -1660,7 +1668,7 @@ def flatten_ok_without_subs(cirq, case):
         cs = cirq.Circuit(build_ops(cirq, specs, 'sym', q))
         cn = cirq.Circuit(build_ops(cirq, specs, 'num', q))
         cf, em = cirq.flatten(cs)
-        rf = cirq.resolve_parameters(cf, em.transform_params(cirq.ParamResolver(dict(case['entries']))))
+        rf = eval_constants(cirq, cirq.resolve_parameters(cf, em.transform_params(cirq.ParamResolver(dict(case['entries'])))))
         return not cirq.is_parameterized(rf) and ops_match(cirq, rf, cn, q)
     except Exception:
         return False
